@@ -1,6 +1,7 @@
 #!/bin/bash
 # C02 prebuild: generates .build/overlay-C02.json from /repo's CURRENT utils/charset/charset.go (nothing under /repo is
-# modified; if the call site below is no longer there the build stops with an engine error).
+# modified; if the call site below is no longer there the check runs on the unmodified file: the tie is then resolved by
+# the goroutine schedule, one resolution per case, and the evidence says so).
 #
 # The repository asks github.com/gogs/chardet for the "best" charset of a path that is not valid UTF-8:
 #     chardet.NewTextDetector().DetectBest(content)
@@ -15,13 +16,15 @@ set -e
 cd "$(dirname "$(readlink -f "$0")")/../.."
 src=/repo/utils/charset/charset.go
 mkdir -p .build/c02
-python3 - "$src" .build/c02/charset.go <<'PY'
+rc=0
+python3 - "$src" .build/c02/charset.go <<'PY' || rc=$?
 import sys
 s = open(sys.argv[1]).read()
 call = "chardet.NewTextDetector().DetectBest(content)"
 if s.count(call) != 1 or 'import (\n' not in s:
-    sys.stderr.write("ENGINE-ERROR: property=C02 utils/charset/charset.go no longer has the DetectBest call site the overlay instruments\n")
-    sys.exit(2)
+    sys.stderr.write("[C02] note: utils/charset/charset.go no longer has the DetectBest call site the overlay instruments; charset ties are not enumerated\n")
+    open(sys.argv[2] + ".absent", "w").write("call site not found\n")
+    sys.exit(3)
 s = s.replace(call, "verifDetectBest(content)")
 s = s.replace('import (\n', 'import (\n\tverifos "os"\n\tverifsort "sort"\n\tverifstrconv "strconv"\n\tverifstrings "strings"\n', 1)
 s += '''
@@ -55,4 +58,7 @@ func verifDetectBest(content []byte) (*chardet.Result, error) {
 '''
 open(sys.argv[2], "w").write(s)
 PY
+if [ $rc = 3 ]; then printf '{"Replace": {}}\n' > .build/overlay-C02.json; exit 0; fi
+[ $rc = 0 ] || exit $rc
+rm -f .build/c02/charset.go.absent
 printf '{"Replace": {"%s": "%s"}}\n' "$src" "$PWD/.build/c02/charset.go" > .build/overlay-C02.json
